@@ -124,7 +124,11 @@ func (w *World) Apply(o Op) (fail string) {
 	before := w.T.GetRoot()
 	switch o.K {
 	case 'I':
-		r, err := w.T.Insert(util.Path(o.P), val(o.V))
+		v := val(o.V)
+		pth := util.Path(o.P)
+		r, err := w.T.Insert(pth, v)
+		// the caller keeps using (and overwriting) its own buffers after the call
+		scribble(v.Buffer)
 		if err != nil {
 			return fmt.Sprintf("insert returned error %v", err)
 		}
@@ -180,19 +184,26 @@ func (w *World) Observe(paths []string) (fail string) {
 			fail = fmt.Sprintf("panic while reading: %v", r)
 		}
 	}()
-	for _, p := range paths {
-		v, err := w.T.GetNodeValueRaw(util.Path(p))
-		want, ok := w.Model[p]
-		if ok {
-			if err != nil || string(v) != want {
-				return fmt.Sprintf("lookup(%q) = %q, %v; want %q", p, v, err, want)
+	for pass := 0; pass < 2; pass++ {
+		for _, p := range paths {
+			v, err := w.T.GetNodeValueRaw(util.Path(p))
+			want, ok := w.Model[p]
+			if ok {
+				if err != nil || string(v) != want {
+					if pass == 1 {
+						return fmt.Sprintf("lookup(%q) = %q, %v; want %q (second pass: the caller overwrote the byte slices earlier lookups returned)", p, v, err, want)
+					}
+					return fmt.Sprintf("lookup(%q) = %q, %v; want %q", p, v, err, want)
+				}
+				// what a lookup hands out belongs to the caller
+				scribble(v)
+				var sv util.SecureSerializableValue
+				if err := w.T.GetNodeValue(util.Path(p), &sv); err != nil || string(sv.Buffer) != want {
+					return fmt.Sprintf("GetNodeValue(%q) = %q, %v; want %q", p, sv.Buffer, err, want)
+				}
+			} else if err != util.ErrValueNotPresent {
+				return fmt.Sprintf("lookup(%q) = %q, %v; want 'value not present'", p, v, err)
 			}
-			var sv util.SecureSerializableValue
-			if err := w.T.GetNodeValue(util.Path(p), &sv); err != nil || string(sv.Buffer) != want {
-				return fmt.Sprintf("GetNodeValue(%q) = %q, %v; want %q", p, sv.Buffer, err, want)
-			}
-		} else if err != util.ErrValueNotPresent {
-			return fmt.Sprintf("lookup(%q) = %q, %v; want 'value not present'", p, v, err)
 		}
 	}
 	got := map[string]string{}
@@ -302,4 +313,11 @@ func Paths(symbols string, maxLen int) []string {
 		}
 	}
 	return out
+}
+
+// scribble overwrites a buffer the harness owns (as a caller that reuses its buffers would).
+func scribble(b []byte) {
+	for i := range b {
+		b[i] ^= 0x5a
+	}
 }
